@@ -23,6 +23,7 @@ from lbry.extras.daemon.storage import SQLiteStorage
 from lbry.blob.blob_manager import BlobManager
 from lbry.blob.disk_space_manager import DiskSpaceManager
 from lbry.blob.blob_file import BlobFile
+from lbry.extras.daemon.migrator.dbmigrator import migrate_db
 from lbry.stream.descriptor import StreamDescriptor
 
 import vlib
@@ -62,17 +63,46 @@ def snapshot(dbpath, blob_dir, unhex, added_back):
     return Snap(blobs, sblobs, streams, files, status, disk)
 
 
+def all_blobs(db):
+    """rows of table blob of a case's start state; rows of a pre-upgrade (revision 14) database come out of the 14->15
+    migration with added_on = 0 and is_mine = 1"""
+    return [[h, ln, 0, True, fin] for h, ln, fin in db.get('legacy', [])] + list(db['blobs'])
+
+
+REV14_BLOB_TABLE = """
+            create table blob (
+                blob_hash char(96) primary key not null,
+                blob_length integer not null,
+                next_announce_time integer not null,
+                should_announce integer not null default 0,
+                status text not null,
+                last_announced_time integer,
+                single_announce integer
+            );
+"""
+
+
+def rev14_schema():
+    """the schema of db_revision 14: table blob without added_on / is_mine (the other tables did not change up to 16)"""
+    script = SQLiteStorage.CREATE_TABLES_QUERY
+    start = script.index("create table if not exists blob (")
+    end = script.index(");", start) + 2
+    script = script[:start] + REV14_BLOB_TABLE + script[end:]
+    return script.replace("create index if not exists blob_data on blob(blob_hash, blob_length, is_mine);", "")
+
+
 def mb(n):
     return n // MIB
 
 
-def classify(s):
-    """independent reading of the storage classes: bytes per class and the removable rows of each pass"""
+def classify(s, ignore=()):
+    """independent reading of the storage classes: bytes per class and the removable rows of each pass.
+    ignore: hashes treated as not stored (rows whose file was already gone at the last restart)"""
     sd_hashes = {sd for _, sd in s.streams}
     sb_count = collections.Counter(bh for _, bh in s.sblobs)
     net = content = private = 0
     for h, ln, _a, mine, fin in s.blobs:
-        if not fin or h in sd_hashes:
+        if not fin or h in sd_hashes or h in ignore:
             continue
         k = sb_count.get(h, 0)
         if k == 0:
@@ -85,17 +115,21 @@ def classify(s):
             content += ln * k
     stream_n = collections.Counter(sh for sh, _ in s.streams)
     file_n = collections.Counter(s.files)
+    streams_of_blob = collections.defaultdict(list)
+    for sh, bh in s.sblobs:
+        streams_of_blob[bh].append(sh)
+    streams_of_sd = collections.defaultdict(list)
+    for sh, sd in s.streams:
+        streams_of_sd[sd].append(sh)
     removable = {False: [], True: []}      # rows (hash, len, added) with join multiplicity
     for h, ln, a, mine, fin in s.blobs:
         if mine:
             continue
         if fin:
-            for sh, bh in s.sblobs:
-                if bh == h:
-                    removable[False] += [(h, ln, a)] * (stream_n.get(sh, 0) * file_n.get(sh, 0))
-        for sh, sd in s.streams:
-            if sd == h:
-                removable[False] += [(h, ln, a)] * file_n.get(sh, 0)
+            for sh in streams_of_blob.get(h, ()):
+                removable[False] += [(h, ln, a)] * (stream_n.get(sh, 0) * file_n.get(sh, 0))
+        for sh in streams_of_sd.get(h, ()):
+            removable[False] += [(h, ln, a)] * file_n.get(sh, 0)
         if fin and sb_count.get(h, 0) == 0:
             removable[True].append((h, ln, a))
     return {'net': net, 'content': content, 'private': private, 'removable': removable,
@@ -138,8 +172,9 @@ def monitor_pass(p, prev):
         return 'blob files after the pass are not (files before) minus (deleted hashes)', 'files-changed'
     if (post.sblobs, post.streams, post.files) != (pre.sblobs, pre.streams, pre.files):
         return 'stream / stream_blob / file rows changed', 'other-tables-changed'
+    post_rows = set(post.blobs)
     for b in pre.blobs:
-        if b[3] and b not in post.blobs:
+        if b[3] and b not in post_rows:
             return f'own blob {b[0]} lost its row', 'own-deleted'
     wfpre = well_formed(pre)
     cpost = classify(post)
@@ -192,8 +227,14 @@ def monitor_clean(c):
 # implementation adapter
 # ----------------------------------------------------------------------------------------------
 
-def resolve_limit(rng_choice, used):
+def resolve_limit(rng_choice, used, real=None):
+    """used: usage as the storage accounts it; real: usage counting only rows whose blob file is in the directory"""
     kind, arg = rng_choice
+    real = used if real is None else real
+    if kind == 'real_eq':
+        return real
+    if kind == 'real_above':
+        return real + arg % 3
     if kind == 'abs':
         return arg
     if kind == 'zero':
@@ -245,6 +286,27 @@ async def _run_impl(d, case):
     db, mode = case.get('db'), case.get('added_mode', 'int')
     conf = Config(data_dir=d, wallet_dir=d, download_dir=d, config=os.path.join(d, 'c.yml'))
     dbpath = os.path.join(d, 'lbrynet.sqlite')
+    if db is not None and db.get('legacy'):
+        # a data directory written by an older release: revision 14 schema, then the REAL upgrade path
+        # (lbry.extras.daemon.migrator.dbmigrator.migrate_db, what DatabaseComponent.start() calls for an old db_revision)
+        con = sqlite3.connect(dbpath)
+        con.executescript(rev14_schema())
+        con.execute('pragma foreign_keys=off')
+        for h, ln, fin in db['legacy']:
+            con.execute("insert into blob values (?,?,0,0,?,0,0)", (hx(h), ln, 'finished' if fin else 'pending'))
+        for sh, sd in db['streams']:
+            con.execute("insert into stream values (?,?,?,?,?)", (hx(sh), hx(sd), '00', '6e', '6e'))
+        for pos, (sh, bh) in enumerate(db['sblobs']):
+            con.execute("insert into stream_blob values (?,?,?,?)", (hx(sh), hx(bh), pos, '00' * 16))
+        for sh in db['files']:
+            con.execute("insert into file values (?, NULL, NULL, NULL, 0.0, 'running', 0, NULL, 5)", (hx(sh),))
+        con.commit()
+        con.close()
+        with open(os.path.join(d, 'db_revision'), 'w') as f:
+            f.write('14')
+        migrate_db(conf, 14, 16)
+        if not os.path.exists(dbpath):
+            raise RuntimeError('migrate_db moved the database away (migration failed)')
     st = SQLiteStorage(conf, dbpath)
     await st.open()
     bd = os.path.join(d, 'blobfiles')
@@ -277,8 +339,9 @@ async def _run_impl(d, case):
         db = derived
     else:
         ids = set()
-        for b in db['blobs']:
+        for b in all_blobs(db):
             ids.add(b[0])
+            lengths[b[0]] = b[1]
         for sh, bh in db['sblobs']:
             ids.update((sh, bh))
         for sh, sd in db['streams']:
@@ -303,6 +366,8 @@ async def _run_impl(d, case):
                 t.execute("insert into blob values (?,?,0,0,?,0,0,?,?)",
                           (hx(h), ln, 'finished' if fin else 'pending', fwd(a), 1 if mine else 0))
                 lengths[h] = ln
+            if db.get('legacy'):
+                return                      # the other tables were already in the old database
             for sh, sd in db['streams']:
                 t.execute("insert into stream values (?,?,?,?,?)", (hx(sh), hx(sd), '00', '6e', '6e'))
             for pos, (sh, bh) in enumerate(db['sblobs']):
@@ -370,6 +435,12 @@ async def _run_impl(d, case):
                 'usage_bytes': await st.get_stored_blob_disk_usage(),
                 'blobs': [list(b) for b in s.blobs], 'disk': s.disk}
 
+    def stored_mb():
+        """usage per class counting only rows whose blob file is in the directory right now"""
+        snap = snapshot(dbpath, bd, unhex, back)
+        on_disk = set(snap.disk)
+        return classify(snap, ignore={b[0] for b in snap.blobs if b[0] not in on_disk})['used']
+
     initial = await observe()
     # sqlite's order among rows with equal ORDER BY keys (realistic: every blob of one stream shares added_on) is
     # unspecified; the model breaks ties by table order, so the harness hands the model a table order that agrees
@@ -394,7 +465,8 @@ async def _run_impl(d, case):
             lim = o[2]
             if not isinstance(lim, int):
                 u = await watcher.get_space_used_mb(cached=False)
-                lim = resolve_limit(lim, u['network_storage'] if net else u['content_storage'] + u['private_storage'])
+                lim = resolve_limit(lim, u['network_storage'] if net else u['content_storage'] + u['private_storage'],
+                                    stored_mb()[net])
             if net:
                 conf.network_storage_limit = lim
             else:
@@ -405,9 +477,9 @@ async def _run_impl(d, case):
             u = await watcher.get_space_used_mb(cached=False)
             cl, nl = o[1], o[2]
             if not isinstance(cl, int):
-                cl = resolve_limit(cl, u['content_storage'] + u['private_storage'])
+                cl = resolve_limit(cl, u['content_storage'] + u['private_storage'], stored_mb()[False])
             if not isinstance(nl, int):
-                nl = resolve_limit(nl, u['network_storage'])
+                nl = resolve_limit(nl, u['network_storage'], stored_mb()[True])
             conf.blob_storage_limit = cl
             conf.network_storage_limit = nl
             clean_pre = snapshot(dbpath, bd, unhex, back)
@@ -669,6 +741,23 @@ def gen_limit(rng):
 STATUS_KINDS = ['used', 'free_content', 'free_net']
 
 
+def gen_wipe(rng, db, clock, pending, nid):
+    """the blob directory is emptied completely, the daemon restarts on the EMPTY directory, new blobs arrive, and a pass
+    runs with a limit at / just above what is really stored (far below what the table charged before the restart)"""
+    clock[0] += 1000
+    ops = [['hide', 'all'], ['setup', clock[0]]]
+    for _ in range(rng.randrange(1, 5)):
+        if pending and rng.random() < 0.7:
+            b = pending.pop()
+            ops.append(['add', [b[0], b[1], b[2], b[3], True]])
+        else:
+            nid[0] += 1
+            ops.append(['add', [nid[0], gen_size(rng, rng.choice(['mixed', 'full'])), rng.randrange(100000, 200000), False, True]])
+    lim = rng.choice([['real_eq', 0], ['real_above', rng.randrange(1, 3)], ['real_above', 0]])
+    ops.append(['pass', rng.random() < 0.3, lim] if rng.random() < 0.7 else ['clean', lim, rng.choice([['real_eq', 0], ['real_above', 1]])])
+    return ops
+
+
 def gen_restart(rng, db, clock):
     """the daemon restarts while (some) blob files are not visible, restarts again with them back, then cleans up"""
     ids = [b[0] for b in db['blobs']]
@@ -742,11 +831,42 @@ def gen_ops(rng, db, nid):
                 a_pass()
         elif c < 0.93:
             ops.append(['status', rng.choice(STATUS_KINDS)])
-        else:
+        elif c < 0.97:
             ops.extend(gen_restart(rng, db, clock))
+        else:
+            ops.extend(gen_wipe(rng, db, clock, pending, nid))
     if not any(o[0] in ('pass', 'clean') for o in ops):
         a_pass()
     return ops
+
+
+def make_legacy(rng, db):
+    """the same state as left by an older release: some streams (and loose blobs) were stored before the upgrade, i.e. sit in a
+    revision 14 table blob (no added_on / is_mine); everything else arrives after the upgrade"""
+    old_streams = {sh for sh, _ in db['streams'] if rng.random() < 0.6}
+    old = {bh for sh, bh in db['sblobs'] if sh in old_streams} | {sd for sh, sd in db['streams'] if sh in old_streams}
+    old |= {b[0] for b in db['blobs'] if rng.random() < 0.15}
+    legacy = [[b[0], b[1], b[4]] for b in db['blobs'] if b[0] in old]
+    return dict(db, legacy=legacy, blobs=[b for b in db['blobs'] if b[0] not in old])
+
+
+def large_case():
+    """more than 5000 downloaded 2 MiB blobs (10.4 GB accounted, sparse files) with the limit set to 100 MB: one pass has to
+    evict 5150 blobs and end within the limit"""
+    blobs, sb, st, fl = [], [], [], []
+    n = 0
+    for k in range(4):
+        sd = 10000 + k
+        blobs.append([sd, 400, 100000 + k, False, True])
+        st.append([20000 + k, sd])
+        fl.append(20000 + k)
+        for _ in range(1300):
+            n += 1
+            blobs.append([n, 2 * MIB, n, False, True])
+            sb.append([20000 + k, n])
+    blobs += [[30001, 2 * MIB, 5, True, True], [30002, 2 * MIB, 6, False, True]]
+    return {'db': {'blobs': blobs, 'sblobs': sb, 'streams': st, 'files': fl, 'disk': [b[0] for b in blobs]},
+            'ops': [['pass', False, 100], ['repeat'], ['clean', 50, 0]]}
 
 
 def gen_real(rng):
@@ -791,7 +911,8 @@ def check_case(run, model, case, kind):
     mdb = dict(case['db'], blobs=sorted(case['db']['blobs'], key=lambda b: pos.get(b[0], len(pos))))
     mod = model.call('run', db=mdb, ops=case['ops'])
     any_del = any(p['deleted'] for p in passes)
-    run.case(case, nontrivial=bool(case['db']['blobs']) and bool(passes))
+    start_blobs = all_blobs(case['db'])
+    run.case(case, nontrivial=bool(start_blobs) and bool(passes), sample=len(start_blobs) < 200)
     prev = None
     bad = None
     for p in passes:
@@ -839,18 +960,43 @@ def check_case(run, model, case, kind):
             bad = (m[0], {'clause': m[1], 'op': c['op'], 'case': hashlib.sha1(vlib.canon(case).encode()).hexdigest()[:12]})
     # the property over the whole history: a blob the user published (its row was created with is_mine=1) is never
     # deleted by a cleanup pass, whatever happened in between (restarts, re-registration, status changes)
-    published = {b[0] for b in case['db']['blobs'] if b[3]}
-    present = {b[0] for b in case['db']['blobs']}
+    # and: what is charged to a class is what is stored.  A restart (BlobManager.setup) reconciles the table with the blob
+    # directory; rows still 'finished' after it although their file was not there are phantoms: a pass must not delete
+    # anything while the usage WITHOUT them is within the limit
+    published = {b[0] for b in start_blobs if b[3]}
+    present = {b[0] for b in start_blobs}
+    phantom = set()
+    legacy_ids = {r[0] for r in case['db'].get('legacy', [])}
     pi = 0
     for i, o in enumerate(case['ops']):
         if o[0] == 'add' and o[1][0] not in present:
             (published.add if o[1][3] else published.discard)(o[1][0])
         elif o[0] == 'delete':
             published -= set(o[1])
+        if o[0] == 'add':
+            phantom.discard(o[1][0])
+        elif o[0] == 'restore':
+            phantom -= set(o[1])
+        elif o[0] == 'setup' and i < len(impl['steps']):
+            on_disk = set(impl['steps'][i]['disk'])
+            phantom = {b[0] for b in impl['steps'][i]['blobs'] if b[4] and b[0] not in on_disk}
+            if phantom:
+                run.count('restart left finished rows without a file')
         for p in passes[pi:pi + {'pass': 1, 'clean': 2}.get(o[0], 0)]:
+            if phantom and p['deleted'] and not bad:
+                real = classify(p['pre'], ignore=phantom)['used'][p['net']]
+                if real <= p['limit']:
+                    charged = classify(p['pre'])['used'][p['net']]
+                    bad = (f"{len(p['deleted'])} blob(s) deleted by the {'network' if p['net'] else 'content'} pass of operation {i} "
+                           f"although what is stored ({real} MB) is within the limit ({p['limit']} MB): {charged} MB are charged, "
+                           f"{len(phantom)} 'finished' row(s) belong to blobs that were already gone at the last restart",
+                           {'clause': 'within-limit-stored', 'op': i,
+                            'case': hashlib.sha1(vlib.canon(case).encode()).hexdigest()[:12]})
             lost = [h for h in p['deleted'] if h in published]
             if lost and not bad:
-                bad = (f"blob {lost[0]} was published by the user (its row was created with is_mine=1) and was deleted by the "
+                how = ('was stored before the upgrade from db_revision 14 (the 14->15 migration marks such blobs the user\'s own)'
+                       if lost[0] in legacy_ids else 'was published by the user (its row was created with is_mine=1)')
+                bad = (f"blob {lost[0]} {how} and was deleted by the "
                        f"{'network' if p['net'] else 'content'} pass of operation {i}",
                        {'clause': 'published-deleted', 'op': i, 'case': hashlib.sha1(vlib.canon(case).encode()).hexdigest()[:12]})
         pi += {'pass': 1, 'clean': 2}.get(o[0], 0)
@@ -859,8 +1005,11 @@ def check_case(run, model, case, kind):
     if any(o[0] == 'setup' for o in case['ops']):
         run.count('histories with a restart (BlobManager.setup)')
     run.count('ops=%d' % len(case['ops']))
-    run.count('blobs=%s' % ('0' if not case['db']['blobs'] else '1-5' if len(case['db']['blobs']) <= 5 else
-                            '6-15' if len(case['db']['blobs']) <= 15 else '16-30' if len(case['db']['blobs']) <= 30 else '31+'))
+    nb = len(start_blobs)
+    run.count('blobs=%s' % ('0' if not nb else '1-5' if nb <= 5 else '6-15' if nb <= 15 else '16-30' if nb <= 30 else
+                            '31-100' if nb <= 100 else '>5000' if nb > 5000 else '101+'))
+    if case['db'].get('legacy'):
+        run.count('start state: revision 14 database upgraded by migrate_db')
     if any_del:
         run.count('cases with a deletion')
     if bad:
@@ -914,7 +1063,11 @@ def main(run):
     rng = run.rng
     n_cases = vlib.scaled(run.tier, 600, 8000)
     max_blobs = vlib.scaled(run.tier, 30, 60)
-    run.rule = ('(a) states produced by the application itself: StreamDescriptor.create_stream + store_stream + '
+    run.rule = ('(0) one LARGE instance in both tiers: 5200 downloaded 2 MiB blobs in 4 streams (sparse files), limit 100 MB, one '
+                'pass must evict 5150 blobs (full model comparison, costs a few seconds); 10% of the row-level states start as a '
+                'revision 14 database (table blob without added_on / is_mine) upgraded by the real migrate_db(conf, 14, 16); '
+                'histories include a restart on a completely emptied blob directory followed by new blobs and a pass whose '
+                'limit is what is really stored; (a) states produced by the application itself: StreamDescriptor.create_stream + store_stream + '
                 'save_published_file + update_blob_ownership for 1..4 published / downloaded streams of 0.3..6.5 MB and 0..3 '
                 'network blobs written through BlobFile + blob_completed; (b) database states built row by row (tables blob, stream, stream_blob, file + blob files): streams that are '
                 'own / downloaded with file / downloaded without file, orphan network blobs, network sd blobs, own orphans; '
@@ -936,11 +1089,16 @@ def main(run):
     for _ in range(vlib.scaled(run.tier, 25, 400)):
         check_case(run, model, gen_real(rng), 'real-api')
         run.count('state built through the application API')
+    check_case(run, model, large_case(), 'large')
     for _ in range(n_cases):
         small = rng.random() < 0.3
         db, loaded, ties, nid = gen_db(rng, 6 if small else max_blobs)
         ops = gen_ops(rng, db, nid)
         case = {'db': db, 'ops': ops, 'loaded': loaded, 'ties': ties, 'added_mode': 'float' if rng.random() < 0.25 else 'int'}
+        if rng.random() < 0.1:
+            case['db'], case['added_mode'] = make_legacy(rng, db), 'int'
+            if rng.random() < 0.7:      # the first thing after the upgrade is a content pass far over its limit
+                case['ops'] = [['pass', False, rng.choice([['below', rng.randrange(1000)], ['abs', 1], ['neg', 0]])]] + ops
         check_case(run, model, case, 'generated')
     # the repaired defect, as a statement about the OLD expression (model side; Props has the theorem)
     old = model.call('pass_old', net=False, limit=100,
